@@ -37,8 +37,10 @@ def _rand_script(rng, depth, allow_nested, name_hint=''):
             r = rng.random()
             if r < 0.35:
                 ops.append(['yield'])
-            elif r < 0.5:
+            elif r < 0.43:
                 ops.append(['soon', 'c%d' % rng.randint(0, 9)])
+            elif r < 0.5:
+                ops.append(['asoon', 'a%d' % rng.randint(0, 9), rng.randint(1, 4)])
             elif r < 0.6:
                 ops.append(['sample', 's%d' % rng.randint(0, 9)])
             elif r < 0.7:
